@@ -222,7 +222,7 @@ def rule_g(repo, chk):
     chk.touch(st)
     gs = st.cfg()
     empties = [n for n in gs.nodes if n.kind == 'stmt' and isinstance(n.ast, ast.Return) and src(n.ast.value) in ("''", '""')]
-    atoms = [m for m in gs.nodes if m.kind == 'test' and isinstance(m.ast, ast.Compare) and src(m.ast.left) == 'self.code']
+    atoms = [m for m in gs.nodes if m.kind == 'test' and isinstance(m.ast, ast.Compare) and 'self.code' in (src(m.ast.left), src(m.ast.comparators[0]))]
     lt = [m for m in atoms if pat.fact_matches(pat.compare_fact(m.ast, 'T'), 'self.code', ('<',), '200')]
     isin = [m for m in atoms if isinstance(m.ast.ops[0], ast.In) and isinstance(m.ast.comparators[0], (ast.Tuple, ast.Set, ast.List))
             and {'204', '304'} <= {src(x) for x in m.ast.comparators[0].elts}]
